@@ -19,7 +19,9 @@ CFG = {
         "hand-written model BtcwVerif/Model/CoinSelect.lean of wallet/createtx.go + txauthor.NewUnsignedTransaction + txsizes/txrules arithmetic (tied by differential run)",
         "the view handed to the model is derived from the history the harness fed to the wallet (ledger in lean/Driver/EngWalletTx.lean), i.e. wtxmgr is assumed to report ledger truth (C01)",
         "btcd txscript engine with StandardVerifyFlags as the oracle for signature validity; secp256k1/schnorr not modelled",
-        "the createTxRequests channel is taken for what it provides (one txToOutputs at a time); its structure (single sender CreateSimpleTx, single receiver = single txToOutputs caller txCreator, spawned once by Start, no nested go/closure) is re-extracted from wallet/*.go on every run (harness/cmd/vxextract/createtxsites.go, syntactic) and checked by C06_generated_serialised",
+        "the createTxRequests channel is taken for what it provides (one txToOutputs at a time); its structure (single sender CreateSimpleTx, single receiver = single txToOutputs caller txCreator, spawned once by Start, no nested go/closure) is re-extracted from wallet/*.go on every run (harness/cmd/vxextract/createtxsites.go, syntactic) and checked by C06_generated_serialised; the same extractor reads off that every holdUnlock() error in txCreator ends the request before txToOutputs (C06_generated_lock_guard), the source fact behind CoinSelect.txCreator",
+        "wallet lock state: the model's LockState is driven by the harness's own commands (Lock, Unlock with/without timeout, timeout firing, wrong passphrase); watch-only wallets/accounts are not generated, so every simple/send result must verify",
+        "backend side of 'published': the fake backend's own record of SendRawTransaction calls and answers (harness/engines/walletchaintx/backend.go), independent of what the wallet returned",
     ],
     "assumptions": [
         "amounts/heights are unbounded Int in the model (no int64/int32 overflow; generator stays far below)",
